@@ -13,7 +13,7 @@ P = {
          "For files up to 150 entries every key-order equivalence class of probes (each key, each gap, before-first, after-last) is sought with GE/LE/EQ on a fresh and on a reset cursor and compared with the model; larger files use 300 sampled classes. The files themselves are sampled.",
          "Trusted: the reference model (partition_point on a sorted Vec). Probe classes are complete with respect to byte-string order, which is all the code compares.", "5 C02"),
  "C03": ("exploration", "stateful / model-based testing: exhaustive breadth-first exploration of reachable cursor states per generated file + random operation histories, judged by a position-machine model",
-         "(a) For each generated small deep file all reachable (cursor fingerprint, model position) states x all operations of a complete alphabet are executed and compared with the model (BFS to fixpoint, shortest counterexample histories); clone independence is checked on every transition. (b) 200-operation run-biased histories on larger files. Exhaustive per explored file only.",
+         "(a) For each generated small deep file all reachable (cursor fingerprint, model position) states x all operations of a complete alphabet are executed and compared with the model (BFS to fixpoint, shortest counterexample histories); clone independence is checked on every transition. (b) 200-operation run-biased histories on larger files; (c) the same on version-1 encodings. Thorough adds a libFuzzer campaign (fuzz_cursor) with the same oracle in the target. Exhaustive per explored file only.",
          "Needs hook H3 (read-only fingerprint) for (a); (b) is hook-free. Relative moves after a None are executed but not judged, as the property leaves them unspecified.", "5 C03, 6.1"),
  "C04": ("exploration", "property-based testing (proptest): generated files x bound pairs, oracle = filter over the reference model (both directions)",
          "Forward and reverse range iterators are compared with a model filter for all 9 bound-kind pairs over independent probes, with dedicated generators for equal, inverted, adjacent, stored, absent and out-of-span bounds.",
@@ -34,7 +34,7 @@ P = {
          "Each generated file is decoded by a decoder written from the format description (shares no code with the tree) with every structural check on, read by grenad 0.4.7, and the same entries written by 0.4.7 are read by the current reader (scans + seek alphabet).",
          "Trusted: snap, flate2, lz4_flex, zstd for decompression; grenad 0.4.7 as published. 0.4.7's writer is not driven with index_levels=255.", "5 C09, 4.3"),
  "C10": ("exploration", "property-based testing (proptest): metamorphic V2->V1 re-encoding by an independent trailer encoder; oracle = reference model and the V2 original",
-         "Single-level files are re-encoded with a 21-byte V1 trailer built independently; version/count/codec, both scans, the seek alphabet, ranges and prefixes must equal the model and the answers of the V2 original.",
+         "Single-level files are re-encoded with a 21-byte V1 trailer built independently; version/count/codec, both scans, the seek alphabet, ranges, prefixes and a 120-operation history on one cursor must equal the model and the answers of the V2 original.",
          "V1 files are synthesised (no historical V1 writer is available offline); the block format is identical in both versions.", "5 C10"),
  "C11": ("exploration", "metamorphic property-based testing (proptest): every scenario re-run over instrumented I/O driven by a generated schedule tape (partial transfers, ErrorKind::Interrupted); oracle = byte/result equality with the plain run",
          "Writer bytes into a splitting/interrupting sink equal two plain runs; reader scans/seeks/histories/ranges/prefixes, merger output and sorter output over splitting/interrupting sources and chunk storage equal the plain results, for all codecs.",
@@ -55,7 +55,7 @@ P = {
          "Files up to 60 000 entries / thousands of 1 KiB blocks with levels 0..6: Reader::new reads only the trailer; every operation of 200-step histories (and every state x operation of small deep files) does <= 2*(levels+2) block loads, seeks only to block starts and reads only inside the sought block.",
          "A load is counted both as a seek and as a read at a block start; the larger count is judged. File sizes are sampled up to 60 000 entries.", "5 C16"),
  "C17": ("exploration", "property-based testing (proptest) under a checking global allocator (guard bands, layout table, double-free, minimal alignment, leak over repeated runs) with overflow checks and debug assertions; thorough adds libFuzzer+ASan and Miri",
-         "Insert-size sequences are aimed by a simulation of the buffer arithmetic at exact fits, 1..15 bytes left, 1..5 doublings and over-budget entries; every alloc/dealloc of the run is checked for layout equality, band integrity, double free, zero-size requests; reader paths run under the same allocator; content is checked by C07's oracle.",
+         "Insert-size sequences are aimed by a simulation of the buffer arithmetic at exact fits, 1..15 bytes left, 1..5 doublings and over-budget entries; every alloc/dealloc of the run is checked for layout equality, band integrity, double free, zero-size requests; reader paths (including a clone read after its original was dropped) run under the same allocator; content is checked by C07's oracle; a crash of the checking process is attributed to the case in flight and replayed in isolation.",
          "Dynamic detection on executed paths only: absence of UB is not established. ASan does not see layout mismatches (the checking allocator does); Miri cannot run zstd.", "5 C17, 4.5"),
  "C18": ("exploration", "property-based testing (proptest): perturbed insert sequences under catch_unwind; oracle = (panic only on a non-ascending prefix) or (every block sorted per the independent decoder)",
          "Sorted lists are perturbed (swap, duplicate, equal keys, reversed runs, and a non-increasing key placed right after a block emission); either the writer panics at or after the first out-of-order insert, or the independent decoder finds every data and index block strictly ascending.",
@@ -96,10 +96,14 @@ def main():
         },
         "engines": [
             {"name": "vharness", "path": "/verif/harness", "serves_properties": sorted(P.keys()),
-             "kind_free_text": "Rust crate: proptest TestRunner on 16 worker threads (seeded from VERIF_SEED), exhaustive enumerations, reference model, independent format decoder, instrumented I/O, evidence writer; binary vcheck"},
+             "kind_free_text": "Rust crate: proptest TestRunner on 16 worker threads (seeded from VERIF_SEED), exhaustive enumerations (reachable cursor states, fault positions, truncations, 2^32 lengths), reference model, independent format decoder, instrumented I/O, checking global allocator, evidence writer; binary vcheck"},
+            {"name": "vfuzz", "path": "/verif/fuzz", "serves_properties": ["C01", "C02", "C03", "C07", "C09", "C13", "C15", "C16", "C17", "C18"],
+             "kind_free_text": "cargo-fuzz crate (libFuzzer, AddressSanitizer, nightly): fuzz_open, fuzz_cursor, fuzz_writer, fuzz_sorter decode bytes into structured cases (arbitrary::Unstructured) and run the same oracle as vharness for the property in VERIF_FOCUS; driven by vcheck in the thorough tier"},
+            {"name": "vmiri", "path": "/verif/harness/src/bin/vmiri.rs", "serves_properties": ["C17"],
+             "kind_free_text": "cases generated natively by the proptest generators, executed under cargo +nightly miri (thorough tier of C17)"},
         ],
         "checks": checks,
-        "notes": "All checks: ./check <ID> <quick|thorough>; exit 0 held / 1 VIOLATION / 2 inconclusive. Known findings: /verif/known_findings.json.",
+        "notes": "All checks: ./check <ID> <quick|thorough>; exit 0 held / 1 VIOLATION / 2 inconclusive (build failure, watchdog, generator health, fuzzer/Miri infrastructure). Known findings: /verif/known_findings.json (four fixed entries D1-D4, none open). Thorough tiers add libFuzzer+ASan campaigns (C01 C02 C03 C07 C09 C13 C15 C16 C17 C18), an exhaustive 2^32 sweep (C14) and a Miri stage (C17). Sensitivity: mutants/table.py + tools/mut.py; independently seeded changes: seeded/.",
         "not_applicable": na,
     }
     json.dump(m, open('/verif/MANIFEST.json', 'w'), indent=1)
